@@ -12,10 +12,35 @@ import (
 	"github.com/ory/keto/internal/driver/config"
 	"github.com/ory/keto/internal/namespace"
 	"github.com/ory/keto/internal/relationtuple"
+	"github.com/ory/keto/internal/x"
 )
 
 type nativeDeps struct {
 	*driver.RegistryDefault
+}
+
+// pagedManager applies the page size of the counterexample where the caller
+// gives none (the symbolic store's default page size is verifPageSize).
+type pagedManager struct {
+	relationtuple.Manager
+	size int
+}
+
+func (m pagedManager) GetRelationTuples(ctx context.Context, q *relationtuple.RelationQuery, opts ...x.PaginationOptionSetter) ([]*relationtuple.RelationTuple, string, error) {
+	return m.Manager.GetRelationTuples(ctx, q, append([]x.PaginationOptionSetter{x.WithSize(m.size)}, opts...)...)
+}
+
+// ReadOnlyMapper: the worlds' ids are UUIDv5(uuid.Nil, name), see objID/subjID
+func (d *nativeDeps) ReadOnlyMapper() *relationtuple.Mapper {
+	return &relationtuple.Mapper{D: &nativeMapperDeps{mm: v5Mapping{}, reg: d.RegistryDefault}, ReadOnly: true}
+}
+
+func (d *nativeDeps) RelationTupleManager() relationtuple.Manager {
+	m := d.RegistryDefault.RelationTupleManager()
+	if verifPageSize != 100 {
+		return pagedManager{m, verifPageSize}
+	}
+	return m
 }
 
 func newDeps(w *world) *nativeDeps {
